@@ -103,8 +103,6 @@ def inverse_lemma(syntax, rate, model, obligation="", **_):
     txt = A.to_time_format(ctx, t)
     w = S.parse_written(txt, syntax, fps)
     probs = S.time_problems([(t, w)], syntax, fps)
-    if syntax == S.FRAMES and not (w >= t and w < t + u):
-      probs.append(("frames-not-ceil", f"{w} not in [{t}, {t} + 1/{fps})"))
     bad = bad or bool(probs)
     ws.append((t, w))
     out.append(f"{t} -> {txt!r} = {w}" + (f" ({probs[0][1]})" if probs else ""))
